@@ -127,7 +127,9 @@ def build(ch, tier_quick, seed):
     orders = [ch.choose("order%d" % k, [0] if reduced else [0, 1]) for k in range(depth - 1)]
     base = [0.7, -1.1, 0.35]
     xs = base[:1] if reduced else base[:2]
-    x0 = ch.choose("x0", xs) + 0.013 * (seed % 17)
+    # 0.0 exactly: intermediate tangents / cotangents are then zero-VALUED while still depending on the enclosing variable
+    x0 = ch.choose("x0", xs + [0.0])
+    x0 = x0 + (0.013 * (seed % 17) if x0 != 0.0 else 0.0)
     # the same term on a (2,) array: every op is element-wise, so each component must equal the scalar term at that value
     # (a constant evaluation point becomes a constant (2,) array; component i then uses its i-th entry)
     # a result that does not depend on x0 at all is a scalar zero of the (scalar) output's space: compared by broadcasting
